@@ -1003,7 +1003,7 @@ const Property C06 = {
      "fault_flush_failed", "probe_multi_unit_message", "probe_message_after_history", "probe_second_context_served_inside_handler"},
     "1..4 messages of 1..6 units over 1..7 scripted handlers (queries emitting 0..4 items of every result type and succeeding / failing silently / emitting then failing / "
     "raising an error mid-unit; commands), any segmentation, write/flush faults; captured bytes and flush count must equal one member of the acceptable set built from "
-    "independently encoded item payloads (table A.2). distinct_nontrivial = distinct canonical trace hashes.",
+    "independently encoded item payloads (table A.2). Also: commands that emit, messages of 100..300 units, ASCII arrays of up to 69000 items, texts with bytes >= 0x80, a second context served from inside a handler, missing / failing flush callback; in configuration user the terminator is a run-time setting changed between messages. distinct_nontrivial = distinct canonical trace hashes.",
 };
 const Property C17 = {
     "C17",
@@ -1015,7 +1015,7 @@ const Property C17 = {
      "probe_empty_binary_array", "probe_three_digit_block_length", "probe_header_nine_digits", "block_headers_only", "probe_data_after_complete_block", "probe_block_of_64k_or_more", "probe_array_of_nearly_1e9_bytes", "probe_array_source_not_16_byte_aligned", "probe_array_source_read_only", "fault_second_context_served_inside_write_callback"},
     "handler scripts emitting arrays of all ten element types in NORMAL/SWAPPED/ASCII (0..300 elements, boundary values), blocks one-shot and streamed with seeded piece "
     "sizes incl. zero-length pieces, incomplete and over-length data at any point, header-only calls up to 10^9-1, items after complete/incomplete blocks; every API call's "
-    "bytes are compared with an independent shift-based encoder, over-length data must be refused. distinct_nontrivial = distinct canonical trace hashes.",
+    "bytes are compared with an independent shift-based encoder, over-length data must be refused. Also: blocks >= 64 KiB, arrays of nearly 10^9 bytes (counting sink), sources at element-aligned addresses and in read-only mappings, a second context answering with arrays of its own from inside the write callback. distinct_nontrivial = distinct canonical trace hashes.",
 };
 PropertyRegistrar r06(&C06), r17(&C17);
 
